@@ -90,7 +90,7 @@ def rd (sp : String) : Req String := ⟨"read", some sp⟩
 arrives; the rx thread tries it on key `None` and hands it to the caller. -/
 def traceF21 : List (Label String) :=
   [.put ⟨"xyz", some "m:p"⟩, .txGet, .txTest false, .txApply, .txSend,
-   .peerEmit false "update" (some "x:y") false none, .rxRead, .rxMatch (some 0), .rxSetEvent]
+   .peerEmit false "update" (some "x:y") false none, .rxRead, .rxMatch (some 0) [], .rxSetEvent]
 
 theorem reply_matches_fails : ¬ reply_matches_statement request2reply := by
   intro h
@@ -108,7 +108,7 @@ def reply_fresh_statement (tbl : List (String × String)) : Prop :=
 
 def traceStale : List (Label String) :=
   [.put (rd "m:p"), .txGet, .txTest false, .txApply,
-   .peerEmit false "reply" (some "m:p") false none, .rxRead, .rxMatch (some 0), .rxSetEvent]
+   .peerEmit false "reply" (some "m:p") false none, .rxRead, .rxMatch (some 0) [], .rxSetEvent]
 
 theorem reply_fresh_fails : ¬ reply_fresh_statement request2reply := by
   intro h
@@ -123,7 +123,7 @@ the rx thread handles the reply of the first one (pop, requeue nothing), then th
 parked with its key free. -/
 def traceF19 : List (Label String) :=
   [.put (rd "m:p"), .put (rd "m:p"), .txGet, .txTest false, .txApply, .txSend, .txGet, .txTest true,
-   .peerEmit false "reply" (some "m:p") false (some 0), .rxRead, .rxMatch (some 0), .rxSetEvent, .txApply]
+   .peerEmit false "reply" (some "m:p") false (some 0), .rxRead, .rxMatch (some 0) [], .rxSetEvent, .txApply]
 
 theorem no_parking_unlocked_fails :
     ∃ s : St String, Reachable request2reply false s ∧ ¬ NoParking request2reply s := by
@@ -176,10 +176,10 @@ def traceGood : List (Label String) :=
    .txGet, .txTest true, .txApply, .txGet, .txTest false, .txApply, .txSend,
    .peerEmit false "update" (some "m:p") true none, .peerEmit true "change" (some "m:q") false (some 2),
    .peerEmit false "reply" (some "m:p") false (some 0),
-   .rxRead, .rxMatch none, .rxRead, .rxMatch (some 2), .rxSetEvent, .rxRequeue,
-   .rxRead, .rxMatch (some 0), .rxSetEvent,
+   .rxRead, .rxMatch none [], .rxRead, .rxMatch (some 2) [1], .rxSetEvent, .rxRequeue,
+   .rxRead, .rxMatch (some 0) [], .rxSetEvent,
    .txGet, .txTest false, .txApply, .txSend,
-   .peerEmit false "reply" (some "m:p") false (some 1), .rxRead, .rxMatch (some 1), .rxSetEvent]
+   .peerEmit false "reply" (some "m:p") false (some 1), .rxRead, .rxMatch (some 1) [], .rxSetEvent]
 
 example : checkRun request2reply true traceGood
     (fun s => s.delivered.length == 3 && replyMatchesB request2reply s && noDoubleDeliveryB s
